@@ -401,6 +401,52 @@ static int replay_C12(const Args&)
    return fails;
 }
 
+// ---- C13: Lexicon constants (native sweep over the 26 accessors and the spelling routes, two Lexicons)
+static int replay_C13(const Args&)
+{
+   impl::Lexicon a, b;
+   struct { const Type& (Lexicon::*acc)() const; const char8_t* spelling; } T[] = {
+      { &Lexicon::void_type, u8"void" }, { &Lexicon::bool_type, u8"bool" }, { &Lexicon::char_type, u8"char" }, { &Lexicon::schar_type, u8"signed char" }, { &Lexicon::uchar_type, u8"unsigned char" },
+      { &Lexicon::wchar_t_type, u8"wchar_t" }, { &Lexicon::char8_t_type, u8"char8_t" }, { &Lexicon::char16_t_type, u8"char16_t" }, { &Lexicon::char32_t_type, u8"char32_t" }, { &Lexicon::short_type, u8"short" },
+      { &Lexicon::ushort_type, u8"unsigned short" }, { &Lexicon::int_type, u8"int" }, { &Lexicon::uint_type, u8"unsigned int" }, { &Lexicon::long_type, u8"long" }, { &Lexicon::ulong_type, u8"unsigned long" },
+      { &Lexicon::long_long_type, u8"long long" }, { &Lexicon::ulong_long_type, u8"unsigned long long" }, { &Lexicon::float_type, u8"float" }, { &Lexicon::double_type, u8"double" }, { &Lexicon::long_double_type, u8"long double" },
+      { &Lexicon::ellipsis_type, u8"..." }, { &Lexicon::typename_type, u8"typename" }, { &Lexicon::class_type, u8"class" }, { &Lexicon::union_type, u8"union" }, { &Lexicon::enum_type, u8"enum" }, { &Lexicon::namespace_type, u8"namespace" } };
+   bool same = true, spelled = true, self = true, route = true, distinct = true;
+   for (auto& t : T) {
+      const Type& x = (a.*t.acc)(); const Type& y = (b.*t.acc)();
+      same = same && &x == &y;
+      auto* id = util::view<Identifier>(x.name());
+      spelled = spelled && id != nullptr && id->string().characters() == util::word_view(t.spelling);
+      auto* at = util::view<As_type>(x);
+      self = self && at != nullptr && physically_same(at->expr(), x) && &x.type() == &a.typename_type() && &x.transfer() == &impl::cxx_transfer();
+      for (impl::Lexicon* l : { &a, &b }) {
+         route = route && &l->get_as_type(l->get_identifier(t.spelling)) == &x && &l->get_as_type(l->get_identifier(l->get_string(t.spelling))) == &x;
+         // words arriving through a reused scratch buffer (a tokenizer's buffer), not through literals
+         char8_t buf[32]; auto n = std::char_traits<char8_t>::length(t.spelling);
+         std::fill(buf, buf + 32, u8'#'); (void)l->get_string(util::word_view(buf, n));
+         std::copy(t.spelling, t.spelling + n, buf);
+         route = route && &l->get_as_type(l->get_identifier(util::word_view(buf, n))) == &x;
+      }
+      for (auto& u : T) distinct = distinct && (&t == &u || &(a.*u.acc)() != &x);
+   }
+   CLAUSE(same, "every Lexicon returns the same built-in type nodes");
+   CLAUSE(spelled, "each built-in type names itself with its documented spelling");
+   CLAUSE(self, "each built-in type is its own underlying expression, typed typename, with natural transfer");
+   CLAUSE(distinct, "the 26 built-in types are pairwise distinct");
+   CLAUSE(route, "asking for the type denoted by a built-in spelling yields the constant (literal, String and scratch-buffer routes)");
+   bool links = true;
+   for (impl::Lexicon* l : { &a, &b }) {
+      char8_t buf[4] = { u8'D', 0, 0, 0 }; (void)l->get_linkage(util::word_view(buf, 1)); buf[0] = u8'C';
+      links = links && &l->get_linkage(util::word_view(buf, 1)) == &a.c_linkage();
+      buf[0] = u8'A'; buf[1] = u8'd'; buf[2] = u8'a'; (void)l->get_linkage(util::word_view(buf, 3)); buf[0] = u8'C'; buf[1] = u8'+'; buf[2] = u8'+';
+      links = links && &l->get_linkage(util::word_view(buf, 3)) == &a.cxx_linkage() && &l->get_linkage(u8"C") == &b.c_linkage() && &l->get_linkage(l->get_string(u8"C++")) == &b.cxx_linkage();
+      links = links && &l->get_label(l->get_identifier(u8"default")) == &a.default_value() && &l->get_decltype(l->nullptr_value()) == &b.nullptr_value().type();
+   }
+   CLAUSE(links, "linkage, label and decltype routes yield the constants, also for words in reused buffers");
+   CLAUSE(&a.true_value() == &b.true_value() && &a.true_value() != &a.false_value() && &a.true_value().type() == &a.bool_type() && &a.false_value().type() == &a.bool_type() && &a.delete_value().type() == &a.void_type(), "symbolic constants are shared, distinct and correctly typed");
+   return fails;
+}
+
 // ---- C18: printing terminates and leaves the stream and the printer as it found them
 #include <sys/resource.h>
 static int replay_C18(const Args& a)
@@ -455,6 +501,7 @@ int main(int argc, char** argv)
       else if (f == "C01" || f == "C04") n = replay_C01(a);
       else if (f == "C07") n = replay_C07(a);
       else if (f == "C06") n = replay_C06(a);
+      else if (f == "C13") n = replay_C13(a);
       else if (f == "C18") n = replay_C18(a);
       else if (f == "C12") n = replay_C12(a);
       else { std::cerr << "unknown replay family " << f << "\n"; return 3; }
